@@ -1,103 +1,4 @@
-/-
-Translated Python functions, group Builders: the output builders (tlexport/quic/quic_output_builder.py `QUICOutputbuilder.build`,
-tlexport/output_builder.py `OutputBuilder.build` and the three methods it calls) against `TLX/Quic/UdpOut.lean` and `TLX/TcpOut.lean`.
-A scapy packet is the list of its layers as constructed (`Gen.Py.Layer`: the keyword arguments the code gives; `/` stacks) — scapy
-itself is outside the model (what it serialises is compared byte for byte by the harness). The theorems say that the emitted packets,
-in order, are the model's frames / datagrams, each as the layers the code stacks for its direction.
-This module imports only its own group's generated file.
--/
-import TLX.Gen.Translated.Builders
-import TLX.Props.Translated.Enc
-import TLX.Quic.UdpOut
-import TLX.TcpOut
-namespace TLX.Props.Translated.Bld
-open TLX TLX.PyRt TLX.Quic.UdpOut TLX.Gen.Py
-
-/-- the addresses of a builder object -/
-structure Cfg where
-  server_mac : Bytes
-  client_mac : Bytes
-  server_ip : List Nat
-  client_ip : List Nat
-  server_port : Nat
-  client_port : Nat
-  ipv6 : Bool
-
-/-- the scapy layers of an output datagram. `enc`: the client-to-server IPv6 packet built INSIDE the loop passes the
-    addresses through `.encode()` (bytes), the one built after the loop does not -/
-def udpPkt (c : Cfg) (cb sb : Bytes) (enc : Bool) (d : Dgram) : Layers × Option Nat :=
-  (if d.isServer then
-      mkEther c.server_mac c.client_mac ++ mkIP c.ipv6 (.inl c.server_ip) (.inl c.client_ip) ++ mkUDP c.client_port c.server_port ++ mkRaw d.payload
-    else if c.ipv6 && enc then
-      mkEther c.client_mac c.server_mac ++ mkIP true (.inr cb) (.inr sb) ++ mkUDP c.server_port c.client_port ++ mkRaw d.payload
-    else
-      mkEther c.client_mac c.server_mac ++ mkIP c.ipv6 (.inl c.client_ip) (.inl c.server_ip) ++ mkUDP c.server_port c.client_port ++ mkRaw d.payload,
-   some d.ts)
-
-abbrev LSt := Option Nat × Option Bool × Bytes × List (Layers × Option Nat)
-
-/-- the loop state of the translation that stands for the model's -/
-def encSt (c : Cfg) (cb sb : Bytes) (out0 : List (Layers × Option Nat)) (s : St) : LSt :=
-  (s.1.map (·.1), s.1.map (·.2.1), (s.1.map (·.2.2)).getD [], out0 ++ s.2.map (udpPkt c cb sb true))
-
-theorem quic_round (c : Cfg) (cb sb : Bytes) (hc : utf8E c.client_ip = .ok cb) (hs : utf8E c.server_ip = .ok sb) (md : Bool)
-    (o out0 : List (Layers × Option Nat)) (s : St) (f : Frame) :
-    quic_build.loop1 md o c.server_mac c.client_mac c.server_ip c.client_ip c.server_port c.client_port c.ipv6 (encSt c cb sb out0 s) f
-      = .ok (.next (encSt c cb sb out0 (step md s f))) := by
-  unfold quic_build.loop1 step exported isStream encSt
-  obtain ⟨cur, outD⟩ := s
-  have hmem : decide (f.ftype ∈ [8, 9, 10, 11, 12, 13, 14, 15]) = decide (f.ftype ∈ ([8, 9, 10, 11, 12, 13, 14, 15] : List Nat)) := rfl
-  rcases cur with _ | ⟨ts, srv, pk⟩
-  · by_cases hst : f.ftype ∈ ([8, 9, 10, 11, 12, 13, 14, 15] : List Nat) <;> by_cases h6 : f.ftype = 6 <;> by_cases hfe : f.ftype = 254 <;> cases md <;>
-      simp [hst, h6, hfe]
-  · by_cases hst : f.ftype ∈ ([8, 9, 10, 11, 12, 13, 14, 15] : List Nat) <;> by_cases h6 : f.ftype = 6 <;> by_cases hfe : f.ftype = 254 <;> cases md <;>
-      by_cases hts : f.ts = ts <;> by_cases hsv : f.isServer = srv <;> cases srv <;> cases hv6 : c.ipv6 <;>
-      simp [hst, h6, hfe, hts, hsv, hv6, hc, hs, udpPkt]
-
-theorem quic_loop (c : Cfg) (cb sb : Bytes) (hc : utf8E c.client_ip = .ok cb) (hs : utf8E c.server_ip = .ok sb) (md : Bool)
-    (o out0 : List (Layers × Option Nat)) : ∀ (fs : List Frame) (s : St),
-    forS fs (encSt c cb sb out0 s) (quic_build.loop1 md o c.server_mac c.client_mac c.server_ip c.client_ip c.server_port c.client_port c.ipv6)
-      = (.ok (.next (encSt c cb sb out0 (fs.foldl (step md) s))) : Except Err (Step LSt (Res quic_build.St (List (Layers × Option Nat))))) := by
-  intro fs
-  induction fs with
-  | nil => intro s; rfl
-  | cons f rest ih =>
-    intro s
-    simp only [forS, quic_round c cb sb hc hs, List.foldl_cons]
-    exact ih _
-
-/-- what `self.out` is after `build`: the datagrams closed inside the loop, then the open one -/
-def quicOut (c : Cfg) (cb sb : Bytes) (out0 : List (Layers × Option Nat)) (s : St) : List (Layers × Option Nat) :=
-  out0 ++ s.2.map (udpPkt c cb sb true) ++ (match s.1 with | none => [] | some (ts, srv, pk) => [udpPkt c cb sb false ⟨srv, ts, pk⟩])
-
-/-- `QUICOutputbuilder.build(metadata)`: the datagrams of the model's `build` (`finish` of the folded `step`), each as the scapy
-    layers the code stacks for its direction, appended to `self.out`; returned and stored -/
-theorem quic_build_eq_model (c : Cfg) (cb sb : Bytes) (hc : utf8E c.client_ip = .ok cb) (hs : utf8E c.server_ip = .ok sb) (md : Bool)
-    (out0 : List (Layers × Option Nat)) (fs : List Frame) :
-    quic_build md fs out0 c.server_mac c.client_mac c.server_ip c.client_ip c.server_port c.client_port c.ipv6
-      = .ok (quicOut c cb sb out0 (fs.foldl (step md) init)) { out := quicOut c cb sb out0 (fs.foldl (step md) init) } := by
-  unfold quic_build init
-  have h := quic_loop c cb sb hc hs md out0 out0 fs init
-  simp only [encSt, init, Option.map_none, Option.getD_none, List.map_nil, List.append_nil] at h
-  simp only [h, loopS_next]
-  generalize fs.foldl (step md) (none, []) = s
-  obtain ⟨cur, outD⟩ := s
-  rcases cur with _ | ⟨ts, srv, pk⟩
-  · simp [quicOut]
-  · cases srv <;> cases hv6 : c.ipv6 <;> simp [quicOut, udpPkt, hv6]
-
-/-- the datagrams are the model's -/
-theorem quicOut_build (c : Cfg) (cb sb : Bytes) (md : Bool) (fs : List Frame) (h6 : c.ipv6 = false) :
-    quicOut c cb sb [] (fs.foldl (step md) init) = (build md fs).map (udpPkt c cb sb false) := by
-  unfold build finish quicOut
-  generalize fs.foldl (step md) init = s
-  obtain ⟨cur, outD⟩ := s
-  have e : udpPkt c cb sb true = udpPkt c cb sb false := by funext d; simp [udpPkt, h6]
-  rcases cur with _ | ⟨ts, srv, pk⟩ <;> simp [e]
-
-end TLX.Props.Translated.Bld
-
--- ------------------------------------------------------------------ OutputBuilder (TCP)
+import TLX.Props.Translated.Builders
 namespace TLX.Props.Translated.Bld
 open TLX TLX.PyRt TLX.Gen.Py TLX.TcpOut
 
@@ -462,10 +363,5 @@ theorem tcp_build_eq_model (c : Cfg) (recs : List (Option Bytes × TRec × Bool)
       | some qf =>
         simp only [hloop.1 qf hb, loopS_next, Option.map_some]
         refine ⟨tcpSt c ⟨[] ++ (handshake t0).map (tcpPkt c), 1, 1, some t0, false, false⟩ qf.1 qf.2, ?_, ?_⟩ <;> simp [tcpSt]
-
-/-- evaluation: one 5-byte server record carried by two packets: handshake, two data segments, two ACKs -/
-example : (match Tcp.build fdivOf [1] [2] [49] [50] 443 5000 false [(some [1, 2, 3, 4, 5], [10, 20], true)] ⟨[], 1, 1, none, false, false⟩ with
-           | .ok out _ => out.map (fun p => (p.1.length, p.2))
-           | .raised _ _ => []) = [(3, 10), (3, 10), (3, 10), (4, 10), (3, 10), (4, 20), (3, 20)] := by decide
 
 end TLX.Props.Translated.Bld
